@@ -525,12 +525,30 @@ func (h *helperVisitor) sortArgs(Args map[string]Expression) []Node {
 	if len(Args) != 0 {
 		// sort the arguments to visit them in the order they appear
 		args := make([]Node, 0, len(Args))
-		for _, arg := range Args {
-			args = append(args, arg)
+		for _, name := range SortedArgNames(Args) {
+			args = append(args, Args[name])
 		}
 		return args
 	}
 	return nil
+}
+
+// returns the names of the given arguments (of a function call or struct literal)
+// sorted by the position of the argument expressions in the source code,
+// so that visiting them does not depend on the iteration order of the map
+func SortedArgNames(Args map[string]Expression) []string {
+	names := make([]string, 0, len(Args))
+	for name := range Args {
+		names = append(names, name)
+	}
+	sort.Slice(names, func(i, j int) bool {
+		iStart, jStart := Args[names[i]].GetRange().Start, Args[names[j]].GetRange().Start
+		if iStart != jStart {
+			return iStart.IsBefore(jStart)
+		}
+		return names[i] < names[j]
+	})
+	return names
 }
 
 func sortedByRange[T Node](nodes []T) []Node {
